@@ -64,11 +64,23 @@ CLUSTER = {
 }
 
 
+# leader-level monitors: one real RawNode leading a group whose other members are played by the monitor
+LEADER = {
+    "C08": {"bin": "mon_c08", "quick": 200000, "thorough": 3000000,
+            "what": "one real RawNode<MemStorage> leading 1..=5 voters (elected, an entry of its own term committed) under random local and forwarded read requests, heartbeat responses "
+                    "carrying the context of any issued read (older, newer, already answered, duplicated, from any voter), proposals, heartbeat ticks and committed removals of voters (4..27 ops): a read is answered only "
+                    "when the leader plus the voters that acknowledged THAT read or a read queued after it (while it was pending) form a quorum of the current voters, to the node that asked, once, with an index "
+                    "not below the leader's commit index when the request arrived"},
+}
+
+
 def monitors_of(P):
-    """All replay monitors registered for P (component-level first, then the cluster-level one)."""
+    """All replay monitors registered for P (component-level first, then the leader-level, then the cluster-level one)."""
     out = []
     if P in MONITORS:
         out.append(MONITORS[P])
+    if P in LEADER:
+        out.append(LEADER[P])
     if P in CLUSTER:
         out.append(CLUSTER[P])
     return out
@@ -109,7 +121,7 @@ def build(repo, binname, timeout=900):
 
 
 def run_monitor(P, repo, seed, cases=None, replay_input=None, timeout=1200, mon=None):
-    mon = mon or MONITORS.get(P) or CLUSTER.get(P)
+    mon = mon or MONITORS.get(P) or LEADER.get(P) or CLUSTER.get(P)
     if mon is None:
         return {"status": "none"}
     t0 = time.time()
